@@ -116,7 +116,22 @@ class RunWorld:
                     finally:
                         W.self_stack.pop()
                 return __init__
-            ns["__init__"] = make_init()
+            def make_new(cd=cd, c=c):
+                def __new__(cls):
+                    # hands out the instance the operation is about (created beforehand with object.__new__)
+                    inst = W.pending
+                    o = W.oid_of[id(inst)]
+                    W.self_stack.append(inst)
+                    try:
+                        W.play(["initbody", o], "init_%d" % c, cd["init"])
+                    finally:
+                        W.self_stack.pop()
+                    return inst
+                return __new__
+            if cd.get("new"):
+                ns["__new__"] = make_new()
+            else:
+                ns["__init__"] = make_init()
             for m, sc in enumerate(cd["meths"]):
                 def make_meth(m=m, sc=sc, c=c):
                     if W.is_async:
@@ -138,7 +153,7 @@ class RunWorld:
                 K = icontract.invariant(make_inv())(K)
             self.K[c] = K
         for o, c in enumerate(self.prog["objs"]):
-            inst = self.K[c].__new__(self.K[c])
+            inst = object.__new__(self.K[c])
             self.O[o] = inst
             self.oid_of[id(inst)] = o
 
@@ -190,6 +205,9 @@ class RunWorld:
         try:
             if t[0] == "init":
                 self.O[t[1]].__init__()
+            elif t[0] == "new":
+                self.pending = self.O[t[1]]
+                self.K[self.prog["objs"][t[1]]]()
             elif self.is_async:
                 self.drive(self.call(t), op["plan"])
             else:
